@@ -14,3 +14,15 @@ def signature(name):
         SIGNATURES[name] = fn
         return fn
     return deco
+
+
+@signature("release_id_dashed_short_ga")
+def _rid_dashed_ga(info, sig):
+    """C14 F-14a: the ID was created from a dashed short name (or dashed base-product short name) with the
+    implicit type 'ga' - the only inputs for which the ID format cannot be split unambiguously."""
+    if info.get("kind") != "id" or "parse_release_id" not in info["why"]:
+        return False
+    x = info["case"]["x"]
+    main = "-" in x["short"] and x["type"] == "ga"
+    bp = bool(x.get("bp")) and "-" in x["bp_short"] and x["bp_type"] == "ga"
+    return main or bp
